@@ -54,6 +54,14 @@ CHECKS['C08'] = dict(cat='exploration', ref='4 C08',
    text='History monitor over load (overwrite on/off), register_function (inferred/explicit/variadic), assert, clear and failing loads; after every step a probe set (every name x arity 0..3) is queried on the real engine and compared with the list-of-definitions model of two independent reference interpreters, so order of combined loads, cut locality per definition group, exact-vs-variadic preference, late binding and atomicity of failing loads are all decided by observed answers. Thorough enumerates all 24 load orders x 16 overwrite vectors of 4 scripts.',
    note='Trusted: the definitions model in reference interpreters A and B (must agree).',
    tech='offline checking of recorded load/register/assert histories against an executable definitions model')
+CHECKS['C10'] = dict(cat='exploration', ref='4 C10',
+   text='Monitor on the compiler boundary for every single-edit corruption of grammar-derived programs (token deletion/duplication/swap/insertion, truncation at every character, foreign characters, trailing garbage): hooks record ANTLR error events at ProxyErrorListener.syntaxError, whether prologParser.program consumed all input, whether the compiler raised and which functions the output defines; an independent recogniser written from prolog.g4 decides membership. Violation iff the compiler returns for text outside the grammar, after an ANTLR error, with input left over, or with a def set different from the clause heads.',
+   note='Trusted: ypv/recog.py as the definition of the grammar language (agreement with ANTLR is measured on every run and an accept-by-recogniser/reject-by-ANTLR mismatch makes the run inconclusive). Raising is always acceptable.',
+   tech='runtime hooks on ANTLR error dispatch and input consumption plus an independent recogniser as oracle')
+CHECKS['C11'] = dict(cat='exploration', ref='4 C11',
+   text='For every input the compiler accepts (grammar-derived programs plus a boundary generator: numeral spellings, variables named like Python/engine names, keyword/quoted/operator predicate names, failing bodies, 1..40 goals, 1..25 nestings, terms nested 1..120 deep, long lists, many arguments/clauses) the monitor compiles the output as Python, compares its top-level definitions and the keys load_script_from_string adds to the engine with the clause heads found by the independent recogniser, checks each is a generator function and calls every defined predicate.',
+   note='Trusted: ypv/recog.py for clause heads; CPython limits (20 nested blocks, 200 nested brackets, 4300-digit integers) define "too large"; reserved API names are loaded but not called.',
+   tech='runtime monitor on compile/load outcome and engine context diff against recogniser-derived heads')
 PENDING = {}
 
 def main():
